@@ -436,6 +436,8 @@ def _jar_uri(c):
                     target = body
         except Exception as e:
             return {"r": "direct", "how": "respond:" + type(e).__name__, "effective": eff}
+    if target is not None and not urlsplit(target).scheme:
+        target = None          # no URI in front of the parameters (an error rendered for the fragment without its return_uri): nothing is sent anywhere
     how = "error" if isinstance(out, dict) and out.get("error") else ("login-page" if isinstance(out, dict) and "function" in out else "other")
     return {"r": "sent" if target else "direct", "target": target, "how": how, "effective": eff}
 
@@ -530,7 +532,7 @@ def model_lines(c, obs):
             return []
         lines = [l]
         if obs["r"] == "ok":
-            ps = [] if c["state"] is None else ["state", c["state"].encode().decode("latin-1")]
+            ps = [] if not c["state"] else ["state", c["state"].encode().decode("latin-1")]      # a blank state is no parameter
             lines.append("\t".join(["redir", "deliver", "query", enc_str(c["uri"]), enc_list(ps)]))
         return lines
     if c["t"] == "uri":
@@ -654,7 +656,8 @@ def oracle(c, obs):
         # where the user agent ends up: the URI the client sent plus exactly the state it sent, nothing else
         t = rfc_parts(obs["target"])
         sent = rfc_parts(c["uri"])
-        want_q = parse_qsl(sent["query"] or "", keep_blank_values=True) + ([("state", c["state"])] if c["state"] is not None else [])
+        # (a blank state is no parameter at all: the message layer does not carry it)
+        want_q = parse_qsl(sent["query"] or "", keep_blank_values=True) + ([("state", c["state"])] if c["state"] else [])
         got_q = parse_qsl(t["query"] or "", keep_blank_values=True)
         if (t["scheme"], t["authority"], t["path"]) != (sent["scheme"], sent["authority"], sent["path"]) or t["fragment"] is not None or got_q != want_q:
             v.append({"cls": "post-logout-target-altered", "has_query": bool(reg[1]), "want": want_q, "got": got_q, "fragment": t["fragment"]})
